@@ -119,6 +119,20 @@ def run(ctx, case):
         out = m.write()
     except Exception:
         return
+    if ctx.cur_k is not None and ctx.cur_k % 5 == 2:
+        # the same chart object edited in place between two writes (nothing may be remembered from the first)
+        try:
+            for tl in (m.hits, m.holds, m.svs, m.samples):
+                if len(tl):
+                    tl.offset += 7.25
+            if len(m.bpms):
+                m.bpms.offset += 7.25
+                m.bpms.bpm *= 1.5
+            if len(m.hits):
+                m.hits.column = (m.hits.column + 1) % int(m.circle_size)
+            out = m.write()
+        except Exception:
+            ctx.counters["c01|edit_sequence_raised"] += 1
     with ctx.quiet():
         ok = write_domain(m) is None
     if ok and (ctx.cur_k is None or ctx.cur_k % 3 == 0 or case["cls"] == "corpus"):
